@@ -66,27 +66,26 @@ theorem parseWithLexer_gap_end (env : Env R) {buf : Buf} (g : List UInt8) (hg : 
 theorem readN_returns {buf : Buf} (p n : Nat) (hp : p ≤ buf.size) (hpos : 0 < buf.size) (hsz : buf.size ≤ 2147483647)
     (hn : n ≤ 2147483647) : ∃ r, readN buf p n = .ok r := by
   unfold readN
-  have h1 : ¬ (p + n > usizeMax) := by unfold usizeMax; omega
-  simp only [h1, if_false]
+  have m : min (p + n) usizeMax = p + n := Nat.min_eq_left (by unfold usizeMax; omega)
+  rw [m]
   by_cases h2 : p + n ≥ buf.size
-  · have h3 : ¬ (buf.size = 0) := by omega
-    simp only [h2, if_true, h3, if_false, Out.bind_ok]
+  · simp only [h2, if_true]
     by_cases h4 : p < buf.size
     · simp only [h4, if_true]
       unfold newSubstr
       have : ¬ (p > buf.size - 1) := by omega
       have h5 : ¬ (buf.size < buf.size - 1) := by omega
-      simp [this, h5]
+      simp [this, h5, Out.bind]
     · simp only [h4, if_false]
       unfold newSubstr
-      simp
-  · simp only [h2, if_false, Out.bind_ok]
+      simp [Out.bind]
+  · simp only [h2, if_false]
     have h4 : p < buf.size := by omega
     simp only [h4, if_true]
     unfold newSubstr
     have : ¬ (p > p + n) := by omega
     have h5 : ¬ (buf.size < p + n) := by omega
-    simp [this, h5]
+    simp [this, h5, Out.bind]
 
 theorem regular_not_delims : ∀ b : UInt8, isRegular b = true →
     b ≠ 60 ∧ b ≠ 47 ∧ b ≠ 91 ∧ b ≠ 40 := by decide +kernel
